@@ -30,7 +30,6 @@ ALLOWED_WRITERS = {
     "hypergraph.runners._shared.gate_execution.execute_ifelse": "gate executor",
     "hypergraph.runners._shared.gate_execution.execute_route": "gate executor",
     "hypergraph.runners._shared.caching.restore_routing_decision": "cache restore of a stored decision",
-    "hypergraph.runners._shared.helpers._clear_stale_gate_decisions": "stale-decision clear (delete only)",
 }
 
 
@@ -46,6 +45,9 @@ def run(ctx) -> None:
     rep.rule("C03.R7", "the controlling-gate relation is derived from the gates' declared targets (the relation the gate-decides-first filter uses), for every gate", floor=3)
 
     # ---- R1 ---------------------------------------------------------------------
+    from .c04 import stale_clearers as _sc
+
+    _clearers = _sc(ctx)
     n_w = 0
     for f in db.all_funcs():
         for n in walk_local(f.node):
@@ -67,13 +69,15 @@ def run(ctx) -> None:
                 continue
             n_w += 1
             why = ALLOWED_WRITERS.get(f.qname)
+            if why is None and f in _clearers:
+                why = "stale-decision clear (delete only)"
             ok = why is not None
-            if ok and "clear_stale" in f.qname and kind not in ("delete", "pop"):
+            if ok and f in _clearers and kind not in ("delete", "pop"):
                 ok = False
             if ok and "restore" in f.qname and kind != "store":
                 ok = False
             rep.add("C03.R1", f"{f.qname}:{kind}", ok, f"{f.module.rel}:{n.lineno}", f"allowed writer: {why}" if ok else f"routing_decisions is written ({kind}) outside the closed writer set")
-    if n_w < 4:
+    if n_w < 3:
         raise AnalysisError("routing_decisions writers not found")
 
     # ---- R2 ---------------------------------------------------------------------
@@ -227,7 +231,10 @@ def run(ctx) -> None:
     gan = db.func("runners._shared.helpers._get_activated_nodes")
     cfg = ctx.cfg(gan)
     dom = dominators(cfg.entry)
-    clears = [n for n in cfg.nodes if any("_clear_stale_gate_decisions" in call_names(db, c, gan) for c in cfg.calls_at(n))]
+    from .c04 import stale_clearers
+
+    clear_fs = stale_clearers(ctx)
+    clears = [n for n in cfg.nodes if any(cal.func in clear_fs for c in cfg.calls_at(n) for cal in db.resolve_call(c, gan))]
     reads = [n for n in cfg.nodes if n not in clears and any(isinstance(x, ast.Attribute) and x.attr == "routing_decisions" for e in cfg.header_exprs(n) for x in ast.walk(e))]
     ok = bool(clears) and bool(reads) and all(dom.get(r, set()) & set(clears) for r in reads)
     rep.add("C03.R4", f"{gan.qname}:clear-before-activation", ok, gan.loc(), "stale decisions are cleared before any decision is read for activation" if ok else "activation can read routing decisions before stale ones were cleared (targets start on an outdated decision)")
